@@ -280,6 +280,7 @@ Section EngineProofs.
 
   (* ---------- histories ---------- *)
   Variables ev vis : A -> X -> res.
+  Variable modf : Z -> A -> A.
 
   Definition clean (l : list A) (s : st (A := A)) : Prop :=
     concat (s_qs s) = [] /\ length (s_qs s) = length (s_procs s)
@@ -305,49 +306,65 @@ Section EngineProofs.
     apply Nat.ltb_ge in K. repeat split; auto. lia.
   Qed.
 
-  (* the calls of a history and what is asked of their outcomes *)
-  Definition is_call (o : op (X := X)) : bool := match o with OCores _ => false | _ => true end.
-  Definition calls (ops : list (op (X := X))) : list (op (X := X)) := filter is_call ops.
-  Definition out_ok (l : list A) (o : op (X := X)) (u : out (A := A)) : Prop :=
-    match o, u with
-    | OEval x _, OutAns (Some r) => ok_answer ev l x r
-    | OMap x _, OutMap (Some r) _ => ok_answer vis l x r
+  (* modify_before_fit: the rebuilt combined analysis is clean for the MODIFIED members: whatever
+     pool it has was forked from them *)
+  Lemma clean_rebuilt (l : list A) (c0 : nat) : clean l (set_cores l (mkSt c0 false [] []) c0).
+  Proof.
+    destruct (1 <? c0) eqn:K.
+    - apply Nat.ltb_lt in K. apply clean_set_cores_new. exact K.
+    - apply Nat.ltb_ge in K. apply clean_set_cores_keep; [exact K|].
+      unfold clean. simpl. repeat split; auto; [discriminate|lia].
+  Qed.
+
+  (* the calls of a history, each with the members as they are when it is made *)
+  Fixpoint trace (l : list A) (ops : list (op (X := X))) : list (list A * op (X := X)) :=
+    match ops with
+    | [] => []
+    | OCores _ :: r => trace l r
+    | OModify d _ :: r => trace (map (modf d) l) r
+    | o :: r => (l, o) :: trace l r
+    end.
+  Definition out_ok (lo : list A * op (X := X)) (u : out (A := A)) : Prop :=
+    match snd lo, u with
+    | OEval x _, OutAns (Some r) => ok_answer ev (fst lo) x r
+    | OMap x _, OutMap (Some r) _ => ok_answer vis (fst lo) x r
     | _, _ => False
     end.
   (* the flag says that nothing is guaranteed: an earlier call of this pool raised and the code does
      not drain (historical snapshot) *)
-  Definition meets (l : list A) (g : bool * op (X := X)) (u : out (A := A)) : Prop :=
-    if fst g then True else out_ok l (snd g) u.
+  Definition meets (g : bool * (list A * op (X := X))) (u : out (A := A)) : Prop :=
+    if fst g then True else out_ok (snd g) u.
 
   Fixpoint guarded (drain : bool) (l : list A) (cores : nat) (pool tainted : bool) (ops : list (op (X := X)))
-    : list (bool * op (X := X)) :=
+    : list (bool * (list A * op (X := X))) :=
     match ops with
     | [] => []
     | OCores k :: r => if 1 <? k then guarded drain l k true false r else guarded drain l k pool tainted r
+    | OModify d c0 :: r => guarded drain (map (modf d) l) c0 (1 <? c0) false r
     | OEval x m :: r =>
-        (tainted && (1 <? cores), OEval x m)
+        (tainted && (1 <? cores), (l, OEval x m))
           :: guarded drain l cores pool (tainted || (negb drain && (1 <? cores) && existsb (raises ev x) l)) r
     | OMap x m :: r =>
-        (tainted && pool, OMap x m)
+        (tainted && pool, (l, OMap x m))
           :: guarded drain l cores pool (tainted || (negb drain && pool && existsb (raises vis x) l)) r
     end.
 
-  Lemma run_guarded (drain fm : bool) (l : list A) : forall ops s tainted,
+  Lemma run_guarded (drain fm : bool) : forall ops l s tainted,
     (tainted = false -> clean l s) -> (1 < s_cores s -> s_pool s = true) ->
-    Forall2 (meets l) (guarded drain l (s_cores s) (s_pool s) tainted ops) (snd (run ev vis drain fm l s ops)).
+    Forall2 meets (guarded drain l (s_cores s) (s_pool s) tainted ops) (snd (run ev vis modf drain fm l s ops)).
   Proof.
-    induction ops as [|o ops IH]; intros s tainted Hc Hp; [constructor|].
-    destruct o as [x masks|x masks|k].
+    induction ops as [|o ops IH]; intros l s tainted Hc Hp; [constructor|].
+    destruct o as [x masks|x masks|k|d c0].
     - (* evaluation *)
       simpl guarded. simpl run. unfold step.
       destruct (1 <? s_cores s) eqn:K.
       + destruct tainted.
         * destruct (pool_call ev drain (length l) (s_procs s) x masks (s_qs s)) as [[r qs']|] eqn:P.
-          -- specialize (IH (mkSt (s_cores s) (s_pool s) (s_procs s) qs') true ltac:(discriminate) Hp).
-             destruct (run ev vis drain fm l (mkSt (s_cores s) (s_pool s) (s_procs s) qs') ops) as [s2 a2] eqn:R.
+          -- specialize (IH l (mkSt (s_cores s) (s_pool s) (s_procs s) qs') true ltac:(discriminate) Hp).
+             destruct (run ev vis modf drain fm l (mkSt (s_cores s) (s_pool s) (s_procs s) qs') ops) as [s2 a2] eqn:R.
              simpl in *. constructor; [exact I|exact IH].
-          -- specialize (IH s true ltac:(discriminate) Hp).
-             destruct (run ev vis drain fm l s ops) as [s2 a2] eqn:R. simpl in *. constructor; [exact I|exact IH].
+          -- specialize (IH l s true ltac:(discriminate) Hp).
+             destruct (run ev vis modf drain fm l s ops) as [s2 a2] eqn:R. simpl in *. constructor; [exact I|exact IH].
         * destruct (Hc eq_refl) as (E & L & Pc & Pp). apply Nat.ltb_lt in K.
           destruct (pool_call_clean ev drain l (s_procs s) x masks (s_qs s) (Pc (Pp K)) E L) as (r & qs' & P & Ok & L' & Z').
           rewrite P.
@@ -355,26 +372,26 @@ Section EngineProofs.
           assert (Hc' : t = false -> clean l (mkSt (s_cores s) (s_pool s) (s_procs s) qs')).
           { intro T. unfold clean. simpl. repeat split; auto. apply Z'.
             unfold t in T. simpl in T. destruct drain; [left; reflexivity|right; exact T]. }
-          specialize (IH (mkSt (s_cores s) (s_pool s) (s_procs s) qs') t Hc' Hp).
-          destruct (run ev vis drain fm l (mkSt (s_cores s) (s_pool s) (s_procs s) qs') ops) as [s2 a2] eqn:R.
+          specialize (IH l (mkSt (s_cores s) (s_pool s) (s_procs s) qs') t Hc' Hp).
+          destruct (run ev vis modf drain fm l (mkSt (s_cores s) (s_pool s) (s_procs s) qs') ops) as [s2 a2] eqn:R.
           simpl in *. constructor; [exact Ok|exact IH].
       + (* serial *)
         assert (T : tainted || (negb drain && false && existsb (raises ev x) l) = tainted).
         { rewrite andb_false_r. simpl. apply orb_false_r. }
-        rewrite T. specialize (IH s tainted Hc Hp).
-        destruct (run ev vis drain fm l s ops) as [s2 a2] eqn:R. simpl in *. constructor; [|exact IH].
-        unfold meets. simpl. rewrite andb_false_r. simpl. rewrite serial_spec. apply spec_sum_ok.
+        rewrite T. specialize (IH l s tainted Hc Hp).
+        destruct (run ev vis modf drain fm l s ops) as [s2 a2] eqn:R. simpl in *. constructor; [|exact IH].
+        unfold meets. simpl. rewrite andb_false_r. unfold out_ok. simpl. rewrite serial_spec. apply spec_sum_ok.
     - (* visualize *)
       simpl guarded. simpl run. unfold step.
       destruct (s_pool s) eqn:Pl.
       + destruct tainted.
         * destruct (pool_call vis drain (length l) (s_procs s) x masks (s_qs s)) as [[r qs']|] eqn:P.
-          -- specialize (IH (mkSt (s_cores s) true (s_procs s) qs') true ltac:(discriminate) (fun _ => eq_refl)).
+          -- specialize (IH l (mkSt (s_cores s) true (s_procs s) qs') true ltac:(discriminate) (fun _ => eq_refl)).
              simpl in IH.
-             destruct (run ev vis drain fm l (mkSt (s_cores s) true (s_procs s) qs') ops) as [s2 a2] eqn:R.
+             destruct (run ev vis modf drain fm l (mkSt (s_cores s) true (s_procs s) qs') ops) as [s2 a2] eqn:R.
              simpl in *. constructor; [exact I|exact IH].
-          -- specialize (IH s true ltac:(discriminate) (fun _ => Pl)). rewrite Pl in IH.
-             destruct (run ev vis drain fm l s ops) as [s2 a2] eqn:R. simpl in *. constructor; [exact I|exact IH].
+          -- specialize (IH l s true ltac:(discriminate) (fun _ => Pl)). rewrite Pl in IH.
+             destruct (run ev vis modf drain fm l s ops) as [s2 a2] eqn:R. simpl in *. constructor; [exact I|exact IH].
         * destruct (Hc eq_refl) as (E & L & Pc & Pp).
           destruct (pool_call_clean vis drain l (s_procs s) x masks (s_qs s) (Pc Pl) E L) as (r & qs' & P & Ok & L' & Z').
           rewrite P.
@@ -382,96 +399,106 @@ Section EngineProofs.
           assert (Hc' : t = false -> clean l (mkSt (s_cores s) true (s_procs s) qs')).
           { intro T. unfold clean. simpl. repeat split; auto. apply Z'.
             unfold t in T. simpl in T. destruct drain; [left; reflexivity|right; exact T]. }
-          specialize (IH (mkSt (s_cores s) true (s_procs s) qs') t Hc' (fun _ => eq_refl)). simpl in IH.
-          destruct (run ev vis drain fm l (mkSt (s_cores s) true (s_procs s) qs') ops) as [s2 a2] eqn:R.
+          specialize (IH l (mkSt (s_cores s) true (s_procs s) qs') t Hc' (fun _ => eq_refl)). simpl in IH.
+          destruct (run ev vis modf drain fm l (mkSt (s_cores s) true (s_procs s) qs') ops) as [s2 a2] eqn:R.
           simpl in *. constructor; [exact Ok|exact IH].
       + assert (T : tainted || (negb drain && false && existsb (raises vis x) l) = tainted).
         { rewrite andb_false_r. simpl. apply orb_false_r. }
-        rewrite T. specialize (IH s tainted Hc (fun H => eq_trans Pl (Hp H))). rewrite Pl in IH.
-        destruct (run ev vis drain fm l s ops) as [s2 a2] eqn:R. simpl in *. constructor; [|exact IH].
-        unfold meets. simpl. rewrite andb_false_r. simpl. rewrite serial_spec. apply spec_sum_ok.
+        rewrite T. specialize (IH l s tainted Hc (fun H => eq_trans Pl (Hp H))). rewrite Pl in IH.
+        destruct (run ev vis modf drain fm l s ops) as [s2 a2] eqn:R. simpl in *. constructor; [|exact IH].
+        unfold meets. simpl. rewrite andb_false_r. unfold out_ok. simpl. rewrite serial_spec. apply spec_sum_ok.
     - (* change of cores *)
       simpl guarded. simpl run. destruct (1 <? k) eqn:K.
       + apply Nat.ltb_lt in K.
         assert (Sc : s_cores (set_cores l s k) = k /\ s_pool (set_cores l s k) = true).
         { unfold set_cores. apply Nat.ltb_lt in K. rewrite K. auto. }
         destruct Sc as [Sc Sp].
-        specialize (IH (set_cores l s k) false (fun _ => clean_set_cores_new l s k K) (fun _ => Sp)).
+        specialize (IH l (set_cores l s k) false (fun _ => clean_set_cores_new l s k K) (fun _ => Sp)).
         rewrite Sc, Sp in IH.
-        destruct (run ev vis drain fm l (set_cores l s k) ops) as [s2 a2] eqn:R. simpl in *. exact IH.
+        destruct (run ev vis modf drain fm l (set_cores l s k) ops) as [s2 a2] eqn:R. simpl in *. exact IH.
       + apply Nat.ltb_ge in K.
         assert (Sc : s_cores (set_cores l s k) = k /\ s_pool (set_cores l s k) = s_pool s).
         { unfold set_cores. apply Nat.ltb_ge in K. rewrite K. auto. }
         destruct Sc as [Sc Sp].
-        specialize (IH (set_cores l s k) tainted (fun T => clean_set_cores_keep l s k K (Hc T))).
+        specialize (IH l (set_cores l s k) tainted (fun T => clean_set_cores_keep l s k K (Hc T))).
         rewrite Sc, Sp in IH. specialize (IH ltac:(lia)).
-        destruct (run ev vis drain fm l (set_cores l s k) ops) as [s2 a2] eqn:R. simpl in *. exact IH.
+        destruct (run ev vis modf drain fm l (set_cores l s k) ops) as [s2 a2] eqn:R. simpl in *. exact IH.
+    - (* modify_before_fit: the members change, the combined analysis is rebuilt from them *)
+      simpl guarded. simpl run.
+      set (l' := map (modf d) l). set (s' := set_cores l' (mkSt c0 false [] []) c0).
+      assert (Sc : s_cores s' = c0 /\ s_pool s' = (1 <? c0)).
+      { unfold s', set_cores. destruct (1 <? c0); auto. }
+      destruct Sc as [Sc Sp].
+      specialize (IH l' s' false (fun _ => clean_rebuilt l' c0)). rewrite Sc, Sp in IH.
+      specialize (IH (fun H => proj2 (Nat.ltb_lt 1 c0) H)).
+      destruct (run ev vis modf drain fm l' s' ops) as [s2 a2] eqn:R. simpl in *. exact IH.
   Qed.
 
-  Lemma guarded_drain (l : list A) : forall ops cores pool,
-    guarded true l cores pool false ops = map (fun o => (false, o)) (calls ops).
+  Lemma guarded_drain : forall ops l cores pool,
+    guarded true l cores pool false ops = map (fun lo => (false, lo)) (trace l ops).
   Proof.
-    induction ops as [|[x m|x m|k] ops IH]; intros cores pool; simpl; auto.
+    induction ops as [|[x m|x m|k|d c0] ops IH]; intros l cores pool; simpl; auto.
     - rewrite IH. reflexivity.
     - rewrite IH. reflexivity.
     - destruct (1 <? k); apply IH.
   Qed.
 
-  (* /repo as it stands: every outcome of every history is right *)
+  (* /repo as it stands: every outcome of every history is right -- for the members as they are when
+     the call is made, in particular after modify_before_fit changed them in place *)
   Theorem history_free_now (fm : bool) (l : list A) (ops : list (op (X := X))) :
-    Forall2 (out_ok l) (calls ops) (snd (run ev vis true fm l st_init ops)).
+    Forall2 out_ok (trace l ops) (snd (run ev vis modf true fm l st_init ops)).
   Proof.
-    pose proof (run_guarded true fm l ops st_init false (fun _ => clean_init l) ltac:(simpl; lia)) as H.
+    pose proof (run_guarded true fm ops l st_init false (fun _ => clean_init l) ltac:(simpl; lia)) as H.
     simpl s_cores in H. simpl s_pool in H. rewrite guarded_drain in H.
-    remember (calls ops) as cs. remember (snd (run ev vis true fm l st_init ops)) as us. clear - H.
+    remember (trace l ops) as cs. remember (snd (run ev vis modf true fm l st_init ops)) as us. clear - H.
     revert us H. induction cs as [|c cs IH]; intros us H; inversion H; subst; constructor; auto.
   Qed.
 
   (* historical snapshot: the same for every call not preceded by a raising call of the same pool *)
   Theorem history_free_partial (drain fm : bool) (l : list A) (ops : list (op (X := X))) :
-    Forall2 (meets l) (guarded drain l 1 false false ops) (snd (run ev vis drain fm l st_init ops)).
-  Proof. exact (run_guarded drain fm l ops st_init false (fun _ => clean_init l) ltac:(simpl; lia)). Qed.
+    Forall2 meets (guarded drain l 1 false false ops) (snd (run ev vis modf drain fm l st_init ops)).
+  Proof. exact (run_guarded drain fm ops l st_init false (fun _ => clean_init l) ltac:(simpl; lia)). Qed.
 
   (* answers of a history, and what they must be when each call's raising analyses agree on the class *)
   Definition out_ans (u : out (A := A)) : option res := match u with OutAns r => r | OutMap r _ => r end.
-  Definition call_spec (l : list A) (o : op (X := X)) : option res :=
-    match o with
-    | OEval x _ => Some (spec_sum ev l x)
-    | OMap x _ => Some (spec_sum vis l x)
-    | OCores _ => None
+  Definition call_spec (lo : list A * op (X := X)) : option res :=
+    match snd lo with
+    | OEval x _ => Some (spec_sum ev (fst lo) x)
+    | OMap x _ => Some (spec_sum vis (fst lo) x)
+    | _ => None
     end.
-  Definition call_uniform (l : list A) (o : op (X := X)) : Prop :=
-    match o with OEval x _ => uniform ev l x | OMap x _ => uniform vis l x | OCores _ => True end.
+  Definition call_uniform (lo : list A * op (X := X)) : Prop :=
+    match snd lo with OEval x _ => uniform ev (fst lo) x | OMap x _ => uniform vis (fst lo) x | _ => True end.
 
   Theorem history_answers_now (fm : bool) (l : list A) (ops : list (op (X := X))) :
-    Forall (call_uniform l) ops ->
-    map out_ans (snd (run ev vis true fm l st_init ops)) = map (call_spec l) (calls ops).
+    Forall call_uniform (trace l ops) ->
+    map out_ans (snd (run ev vis modf true fm l st_init ops)) = map call_spec (trace l ops).
   Proof.
-    intro U. pose proof (history_free_now fm l ops) as H.
-    assert (Uc : Forall (call_uniform l) (calls ops)).
-    { apply Forall_forall. intros o Ho. apply filter_In in Ho. rewrite Forall_forall in U. apply U. tauto. }
-    remember (calls ops) as cs. remember (snd (run ev vis true fm l st_init ops)) as us. clear - H Uc.
+    intro Uc. pose proof (history_free_now fm l ops) as H.
+    remember (trace l ops) as cs. remember (snd (run ev vis modf true fm l st_init ops)) as us. clear - H Uc.
     revert us H. induction cs as [|c cs IH]; intros us H; inversion H; subst; [reflexivity|].
     inversion Uc; subst. simpl. f_equal; [|apply IH; assumption].
-    destruct c as [x m|x m|k]; destruct y as [[r|]|[r|] w]; simpl in *; try contradiction.
+    destruct c as [lc [x m|x m|k|d c0]]; destruct y as [[r|]|[r|] w]; unfold out_ok, call_uniform, call_spec in *;
+      simpl in *; try contradiction.
     - f_equal. apply ok_answer_uniform; assumption.
     - f_equal. apply ok_answer_uniform; assumption.
   Qed.
 
-  (* hence independent of cores, schedules and earlier calls: two histories making the same calls *)
-  Definition erase (o : op (X := X)) : op (X := X) :=
-    match o with OEval x _ => OEval x [] | OMap x _ => OMap x [] | OCores k => OCores 0 end.
-  Lemma call_spec_erase (l : list A) (o : op (X := X)) : call_spec l (erase o) = call_spec l o.
-  Proof. destruct o; reflexivity. Qed.
+  (* hence independent of cores, schedules and earlier calls: two histories making the same calls on
+     the same member states *)
+  Definition erase (lo : list A * op (X := X)) : list A * op (X := X) :=
+    (fst lo, match snd lo with OEval x _ => OEval x [] | OMap x _ => OMap x [] | o => o end).
+  Lemma call_spec_erase (lo : list A * op (X := X)) : call_spec (erase lo) = call_spec lo.
+  Proof. destruct lo as [l [x m|x m|k|d c0]]; reflexivity. Qed.
 
   Theorem cores_independent_now (fm fm' : bool) (l : list A) (ops ops' : list (op (X := X))) :
-    Forall (call_uniform l) ops -> Forall (call_uniform l) ops' ->
-    map erase (calls ops) = map erase (calls ops') ->
-    map out_ans (snd (run ev vis true fm l st_init ops)) = map out_ans (snd (run ev vis true fm' l st_init ops')).
+    Forall call_uniform (trace l ops) -> Forall call_uniform (trace l ops') ->
+    map erase (trace l ops) = map erase (trace l ops') ->
+    map out_ans (snd (run ev vis modf true fm l st_init ops)) = map out_ans (snd (run ev vis modf true fm' l st_init ops')).
   Proof.
     intros U U' E. rewrite (history_answers_now fm l ops U), (history_answers_now fm' l ops' U').
-    assert (R : forall cs, map (call_spec l) cs = map (call_spec l) (map erase cs)).
+    assert (R : forall cs, map call_spec cs = map call_spec (map erase cs)).
     { intro cs. rewrite map_map. apply map_ext. intro o. symmetry. apply call_spec_erase. }
-    rewrite (R (calls ops)), (R (calls ops')), E. reflexivity.
+    rewrite (R (trace l ops)), (R (trace l ops')), E. reflexivity.
   Qed.
 End EngineProofs.
